@@ -4,7 +4,9 @@
 //! printed table.  The parent parses the table into cells.
 //!
 //! Case line: `<api> <flag> <env>` with
-//!   api  = main | builder-binary | builder-decimal | pre-binary | pre-decimal
+//!   api  = main | builder-binary | builder-decimal | pre-binary | pre-decimal | seq-<b|d>+
+//!          (`seq-bd`: `Divan::default().bytes_format(Binary).run_benches()` then the same with Decimal, in one
+//!           process; output: one table per runner joined by ` @@ `)
 //!          (`builder-*`: `Divan::from_args().bytes_format(..)`,
 //!           `pre-*`: `Divan::default().bytes_format(..).config_with_args()`)
 //!   flag = - | decimal | binary      (`--bytes-format <flag>`)
@@ -81,6 +83,16 @@ pub fn child() {
         "builder-decimal" => Divan::from_args().bytes_format(BytesFormat::Decimal),
         "pre-binary" => Divan::default().bytes_format(BytesFormat::Binary).config_with_args(),
         "pre-decimal" => Divan::default().bytes_format(BytesFormat::Decimal).config_with_args(),
+        // several runners, one after the other, in ONE process: `seq-<b|d><b|d>...`
+        seq if seq.starts_with("seq-") => {
+            for c in seq[4..].chars() {
+                let f = if c == 'b' { BytesFormat::Binary } else { BytesFormat::Decimal };
+                println!("@@RUN");
+                Divan::default().bytes_format(f).run_benches();
+                let _ = std::io::stdout().flush();
+            }
+            return;
+        }
         other => panic!("HX_FMT_API {other}"),
     };
     d.main();
@@ -111,6 +123,15 @@ pub fn run_case(line: &str) -> String {
         return format!("child-failed {} {}", out.status, err.lines().last().unwrap_or("").replace('\t', " "));
     }
     let text = String::from_utf8_lossy(&out.stdout);
+    if api.starts_with("seq-") {
+        // one table per runner, separated by the child's `@@RUN` lines
+        let tables: Vec<String> = text.split("@@RUN\n").skip(1).map(parse_table).collect();
+        return format!("ok {}", tables.join(" @@ "));
+    }
+    format!("ok {}", parse_table(&text))
+}
+
+fn parse_table(text: &str) -> String {
     let mut rows: Vec<String> = Vec::new();
     let mut bench = String::new();
     // The name column and the `fastest` column are separated by position only.
@@ -147,5 +168,5 @@ pub fn run_case(line: &str) -> String {
         };
         rows.push(format!("{}|{}|{}|{}|{}|{}", bench, label, cols[0], cols[1], cols[2], cols[3]));
     }
-    format!("ok {}", rows.join(";"))
+    rows.join(";")
 }
